@@ -160,6 +160,12 @@ func (w *World) opManPush(op Op) *Resp {
 				w.x.viol([]string{"C07"}, "referrers.subject-header", "OCI-Subject", fmt.Sprintf("PUT of a manifest with subject %s answered OCI-Subject %q", verdict.view.subject, got))
 			}
 		}
+		if !w.k.referrerOn() {
+			// with the referrers API switched off a push is just a push: nothing announces a referrers entry
+			if got := r.H.Get("OCI-Subject"); got != "" {
+				w.x.viol([]string{"C14", "C19"}, "switch.referrer-off", "OCI-Subject sent", fmt.Sprintf("the referrers API is disabled, yet the PUT of a manifest with subject %s answered OCI-Subject %q", verdict.view.subject, got))
+			}
+		}
 		for _, d := range verdict.view.refs {
 			if b, ok := mr.blobs[d]; ok && b.maybeGone {
 				b.maybeGone = false // the server just verified it
@@ -961,12 +967,28 @@ func (w *World) opRefs(op Op) {
 	all := append([]descJSON(nil), descs...)
 	link, has := parseLinkNext(r.H.Get("Link"))
 	pages := 1
+	lastQuery := ""
+	defer func() {
+		// a client that asks for one page more than there are (or repeats a continuation with another page number) gets an
+		// answer like anybody else: the generic oracles (no panic, no 5xx) judge it
+		if lastQuery == "" || w.x.stop {
+			return
+		}
+		if q, err := url.ParseQuery(lastQuery); err == nil {
+			for _, pg := range []int{pages, pages + 1} {
+				q.Set("page", strconv.Itoa(pg))
+				w.do(reqSpec{method: "GET", path: "/v2/" + repo + "/referrers/" + subj, query: q.Encode(), repos: []string{repo}})
+			}
+			w.x.out.probe("referrers-page-past-the-end")
+		}
+	}()
 	for has && pages < 200 {
 		u, err := url.Parse(link)
 		if err != nil {
 			w.x.viol([]string{"C07"}, "referrers.chain", "unparsable Link", link)
 			return
 		}
+		lastQuery = u.RawQuery
 		r2, d2, ok2 := w.refPage(repo, subj, u.RawQuery)
 		if w.faulted(r2, repo) {
 			return
